@@ -32,7 +32,9 @@ def check_witnesses(con, d, when):
     for i, w in con.age_witnesses.items():
         wv = np.asarray(w.value, dtype=float)
         ci = np.asarray(con.age_vectors[i].value, dtype=float)
-        if wv.shape != (m,) or not np.all(np.isfinite(wv)) or not np.all(np.isfinite(ci)):
+        if wv.shape == (m,) and np.all(np.isfinite(ci)) and not np.all(np.isfinite(wv)):
+            return '%s: the exposed witness %d holds %s although the AGE vector it certifies is %s' % (when, i, wv.tolist(), ci.tolist())
+        if wv.shape != (m,) or not np.all(np.isfinite(ci)):
             continue
         others = [j for j in range(m) if j != i]
         if any(wv[j] < -1e-6 * (1 + abs(wv).max()) for j in others):
@@ -173,7 +175,11 @@ def run(ctx):
             break
     cases = []
     for k in range(ctx.n(220, 2500)):
-        d = sagecorr.build_primal(ctx.rng)
+        sagecorr.FORCE_TINY[0] = (k % 40 == 7)      # a few instances with every exponent of size 2^-45 (far below any absolute threshold)
+        try:
+            d = sagecorr.build_primal(ctx.rng)
+        finally:
+            sagecorr.FORCE_TINY[0] = False
         if 'error' in d:
             ctx.count('construction_error', d['error'][:40])
             continue
